@@ -8,6 +8,7 @@ import (
 	"fmt"
 	"sort"
 	"sync"
+	"syscall"
 	"testing"
 	"time"
 
@@ -30,19 +31,32 @@ var (
 	c12DeadAddr string
 )
 
-// c12Dead: an address whose server is gone. The wrapper's shared client for it is
-// created while the server still answers, then the server is closed.
+// c12Dead: an address on which no server answers: a port RESERVED for the life of the
+// process by a socket that is bound (without SO_REUSEADDR) but never listens, so every
+// connect is refused. An earlier version closed a miniredis and used its address; the
+// OS can hand such a freed port to a later server of this or another process, and the
+// wrapper's process-wide client manager then serves that server with the cached client
+// of the "dead" address (seen once in a thorough run: a password-protected twin server
+// answered NOAUTH to the cached password-less client), while the "closed" address
+// answers again.
 func c12Dead(t *testing.T) string {
 	c12DeadOnce.Do(func() {
-		m, err := miniredis.Run()
+		fd, err := syscall.Socket(syscall.AF_INET, syscall.SOCK_STREAM, 0)
 		if err != nil {
-			t.Fatalf("miniredis C: %v", err)
+			t.Fatalf("socket: %v", err)
 		}
-		c12DeadAddr = m.Addr()
-		if !New(c12DeadAddr).Ping() {
-			t.Fatalf("cannot reach miniredis C")
+		if err = syscall.Bind(fd, &syscall.SockaddrInet4{Port: 0, Addr: [4]byte{127, 0, 0, 1}}); err != nil {
+			t.Fatalf("bind: %v", err)
 		}
-		m.Close()
+		sa, err := syscall.Getsockname(fd)
+		if err != nil {
+			t.Fatalf("getsockname: %v", err)
+		}
+		c12DeadAddr = fmt.Sprintf("127.0.0.1:%d", sa.(*syscall.SockaddrInet4).Port)
+		// the fd is deliberately never closed
+		if New(c12DeadAddr).Ping() { // creates the wrapper's shared client of the address
+			t.Fatalf("something answers on the reserved port %s", c12DeadAddr)
+		}
 	})
 	return c12DeadAddr
 }
